@@ -59,6 +59,47 @@ def _strip_tmp(e):
     return x
 
 
+def _strip_ctor(e):
+    x = _strip_tmp(e)
+    while x is not None and x.get('kind') in ('CXXConstructExpr', 'ImplicitCastExpr', 'CXXFunctionalCastExpr') and \
+            len([a for a in kids(x) if a.get('kind') != 'CXXDefaultArgExpr']) == 1:
+        x = _strip_tmp([a for a in kids(x) if a.get('kind') != 'CXXDefaultArgExpr'][0])
+    return x
+
+
+def _holder_getter(G, wrappers, call):
+    """The member call returns the member that the class's environment-reading constructor stored getenv(..) into."""
+    from .c20 import call_targets
+    for t in call_targets(G, call):
+        if t not in G.defs:
+            continue
+        hu, hf = G.defs[t]
+        rets = [y for y in walk(hf) if y.get('kind') == 'ReturnStmt' and kids(y)]
+        if len(rets) != 1:
+            return False
+        m = peel(kids(rets[0])[0])
+        if m.get('kind') != 'MemberExpr' or peel(kids(m)[0]).get('kind') != 'CXXThisExpr':
+            return False
+        cls = t[0].rsplit('::', 1)[0]
+        for w in wrappers:
+            if w[0] == cls + '::' + cls.split('::')[-1]:
+                wu, wf = G.defs[w]
+                for y in walk(wf):
+                    if y.get('kind') == 'BinaryOperator' and y.get('opcode') == '=' and peel(kids(y)[0]).get('kind') == 'MemberExpr' and \
+                            peel(kids(y)[0]).get('name') == m.get('name'):
+                        r = _strip_tmp(kids(y)[1])
+                        if r.get('kind') == 'CallExpr' and callee(r) and callee(r)[0] == 'fn' and \
+                                callee(r)[1].get('name') in ('getenv', 'secure_getenv'):
+                            return True
+                    if y.get('kind') == 'CXXCtorInitializer' and (y.get('anyInit') or {}).get('name') == m.get('name'):
+                        r = _strip_tmp(kids(y)[0]) if kids(y) else None
+                        if r is not None and r.get('kind') == 'CallExpr' and callee(r) and callee(r)[0] == 'fn' and \
+                                callee(r)[1].get('name') in ('getenv', 'secure_getenv'):
+                            return True
+        return False
+    return False
+
+
 def _env_wrappers(G):
     """Internal functions / lambdas that hand back getenv(<their own parameter>): {function key: parameter index}."""
     out = {}
@@ -79,6 +120,17 @@ def _env_wrappers(G):
 
 def _env_read(G, wrappers, x):
     """Name of the environment variable the call x reads (None: not a literal), or False when x reads none."""
+    if x is not None and x.get('kind') in ('CXXConstructExpr', 'CXXTemporaryObjectExpr'):
+        # an object whose constructor reads the variable named by its argument
+        q = (x.get('type') or {}).get('qualType', '').replace('const ', '').strip()
+        for t in wrappers:
+            if t[0].endswith('::' + q.split('::')[-1] + '::' + q.split('::')[-1]) and len(call_args(x)) > wrappers[t] and \
+                    len(t[1]) == len(call_args(x)):
+                a = peel(call_args(x)[wrappers[t]])
+                while a.get('kind') in ('ImplicitCastExpr',) and kids(a):
+                    a = peel(kids(a)[0])
+                return a.get('value', '').strip('"') if a.get('kind') == 'StringLiteral' else None
+        return False
     if x is None or x.get('kind') not in ('CallExpr', 'CXXOperatorCallExpr', 'CXXMemberCallExpr') or not callee(x):
         return False
     c = callee(x)
@@ -97,6 +149,77 @@ def _env_read(G, wrappers, x):
                         a = peel(kids(a)[0])
                     return a.get('value', '').strip('"') if a.get('kind') == 'StringLiteral' else None
     return False
+
+
+def _returns_loaded(ctx, u, f, depth):
+    """[(return node, good, why)]: whether each return of <f> hands back the time_zone that load_time_zone filled in, directly or
+    through a helper that does."""
+    G = ctx.G
+    out = []
+    if True:
+        g = ctx.cfg(f)
+        F = ctx.facts(f)
+        dom = g.dominators()
+        # (load_time_zone is a one-line wrapper of the loader: calling either is the same)
+        loader_qns = ('cctz::load_time_zone', loader.analyse(ctx)['key'][0])
+        calls = [x for x in walk(f) if x.get('kind') in ('CallExpr', 'CXXMemberCallExpr') and callee(x) and callee(x)[0] == 'fn'
+                 and qn(callee(x)[1]) in loader_qns]
+        for rn in g.returns:
+            rv = peel(kids(rn.ast)[0]) if kids(rn.ast) else None
+            while rv is not None and rv.get('kind') == 'CXXConstructExpr' and len(kids(rv)) == 1:
+                rv = peel(kids(rv)[0])
+            vid = (rv.get('referencedDecl') or {}).get('id') if rv is not None and rv.get('kind') == 'DeclRefExpr' else None
+            good = False
+            why = 'the function does not return the time_zone that load_time_zone filled in'
+            for c in calls:
+                args = call_args(c)
+                a1 = peel(args[1]) if len(args) == 2 else None
+                if a1 is not None and a1.get('kind') == 'UnaryOperator' and a1.get('opcode') == '&' and \
+                        (peel(kids(a1)[0]).get('referencedDecl') or {}).get('id') == vid and vid is not None:
+                    cn = g.nodes_for(c)
+                    if cn and all(any(x.id in dom[rn.id] for x in cn) for _ in [0]):
+                        # no other write to the variable anywhere
+                        ws = [n for (i, nm, n, w) in var_refs(f) if i == vid and w and not any(y is c for y in ancestors(n))]
+                        good = not ws
+                        if ws:
+                            why = 'the zone returned is modified after/besides load_time_zone at %s' % pos(ws[0])
+                    # result of the call must not steer control flow
+                    p = c.get('_p')
+                    while p is not None and (p.get('kind') in ('ExprWithCleanups', 'ParenExpr') or (
+                            p.get('kind') in ('CStyleCastExpr', 'CXXStaticCastExpr', 'CXXFunctionalCastExpr') and
+                            (dtype(p) or qtype(p)) == 'void')):
+                        p = p.get('_p')         # (void)f(..) / static_cast<void>(f(..)): the result is discarded
+                    while p is not None and p.get('kind') in ('ImplicitCastExpr',):
+                        p = p.get('_p')
+                    if p is not None and p.get('kind') == 'VarDecl':
+                        # the result is named: fine as long as the name is only ever discarded
+                        uses = [y for y in walk(f) if y.get('kind') == 'DeclRefExpr' and (y.get('referencedDecl') or {}).get('id') == p.get('id')]
+
+                        def discarded(y):
+                            q = y.get('_p')
+                            while q is not None and q.get('kind') in ('ImplicitCastExpr', 'ParenExpr'):
+                                q = q.get('_p')
+                            return q is not None and q.get('kind') in ('CStyleCastExpr', 'CXXStaticCastExpr', 'CXXFunctionalCastExpr') and \
+                                (dtype(q) or qtype(q)) == 'void'
+                        if all(discarded(y) for y in uses):
+                            p = None
+                    if p is not None and p.get('kind') not in ('CompoundStmt',):
+                        good = False
+                        why = 'the result of load_time_zone is used: the fallback-to-UTC value it stored may be replaced'
+            if not good and vid is None and rv is not None and rv.get('kind') == 'CallExpr' and depth < 3 and callee(rv) and \
+                    callee(rv)[0] == 'fn':
+                # return H(..): H itself returns what the loader stored on every path
+                tk = [kk for kk in G.defs if kk[0] == qn(callee(rv)[1])]
+                tk = [kk for kk in tk if len(kk[1]) == len(call_args(rv))] if len(tk) > 1 else tk
+                if len(tk) == 1 and tk[0][0] not in ('cctz::utc_time_zone',):
+                    hu, hf = G.defs[tk[0]]
+                    sub = _returns_loaded(ctx, hu, hf, depth + 1)
+                    if sub and all(gd for (_r, gd, _w) in sub):
+                        good = True
+                    elif sub:
+                        why = 'through %s: %s' % (tk[0][0], [w for (_r, gd, w) in sub if not gd][0])
+            out.append((rn, good, why))
+    return out
 
 
 def run(ctx):
@@ -211,55 +334,7 @@ def run(ctx):
     # ---- C19-local: return the zone load_time_zone wrote, nothing written afterwards
     for name in ('cctz::local_time_zone', 'cctz::fixed_time_zone'):
         u, f = ctx.fn(name)
-        g = ctx.cfg(f)
-        F = ctx.facts(f)
-        dom = g.dominators()
-        # (load_time_zone is a one-line wrapper of the loader: calling either is the same)
-        loader_qns = ('cctz::load_time_zone', loader.analyse(ctx)['key'][0])
-        calls = [x for x in walk(f) if x.get('kind') in ('CallExpr', 'CXXMemberCallExpr') and callee(x) and callee(x)[0] == 'fn'
-                 and qn(callee(x)[1]) in loader_qns]
-        for rn in g.returns:
-            rv = peel(kids(rn.ast)[0]) if kids(rn.ast) else None
-            while rv is not None and rv.get('kind') == 'CXXConstructExpr' and len(kids(rv)) == 1:
-                rv = peel(kids(rv)[0])
-            vid = (rv.get('referencedDecl') or {}).get('id') if rv is not None and rv.get('kind') == 'DeclRefExpr' else None
-            good = False
-            why = 'the function does not return the time_zone that load_time_zone filled in'
-            for c in calls:
-                args = call_args(c)
-                a1 = peel(args[1]) if len(args) == 2 else None
-                if a1 is not None and a1.get('kind') == 'UnaryOperator' and a1.get('opcode') == '&' and \
-                        (peel(kids(a1)[0]).get('referencedDecl') or {}).get('id') == vid and vid is not None:
-                    cn = g.nodes_for(c)
-                    if cn and all(any(x.id in dom[rn.id] for x in cn) for _ in [0]):
-                        # no other write to the variable anywhere
-                        ws = [n for (i, nm, n, w) in var_refs(f) if i == vid and w and not any(y is c for y in ancestors(n))]
-                        good = not ws
-                        if ws:
-                            why = 'the zone returned is modified after/besides load_time_zone at %s' % pos(ws[0])
-                    # result of the call must not steer control flow
-                    p = c.get('_p')
-                    while p is not None and (p.get('kind') in ('ExprWithCleanups', 'ParenExpr') or (
-                            p.get('kind') in ('CStyleCastExpr', 'CXXStaticCastExpr', 'CXXFunctionalCastExpr') and
-                            (dtype(p) or qtype(p)) == 'void')):
-                        p = p.get('_p')         # (void)f(..) / static_cast<void>(f(..)): the result is discarded
-                    while p is not None and p.get('kind') in ('ImplicitCastExpr',):
-                        p = p.get('_p')
-                    if p is not None and p.get('kind') == 'VarDecl':
-                        # the result is named: fine as long as the name is only ever discarded
-                        uses = [y for y in walk(f) if y.get('kind') == 'DeclRefExpr' and (y.get('referencedDecl') or {}).get('id') == p.get('id')]
-
-                        def discarded(y):
-                            q = y.get('_p')
-                            while q is not None and q.get('kind') in ('ImplicitCastExpr', 'ParenExpr'):
-                                q = q.get('_p')
-                            return q is not None and q.get('kind') in ('CStyleCastExpr', 'CXXStaticCastExpr', 'CXXFunctionalCastExpr') and \
-                                (dtype(q) or qtype(q)) == 'void'
-                        if all(discarded(y) for y in uses):
-                            p = None
-                    if p is not None and p.get('kind') not in ('CompoundStmt',):
-                        good = False
-                        why = 'the result of load_time_zone is used: the fallback-to-UTC value it stored may be replaced'
+        for (rn, good, why) in _returns_loaded(ctx, u, f, 0):
             ctx.check(good, 'C19-local', '%s returns what load_time_zone stored' % name, rn.ast, why,
                       construct='local:%s' % name, detail='load_time_zone(name, &tz) dominates return tz; no other write')
     ctx.minimum('C19-local', 2)
@@ -339,8 +414,7 @@ def run(ctx):
     u, f = ctx.fn('cctz::local_time_zone')
     f_local = f
     for (uu_, ff_) in ctx.scope(f):
-        if any(x_.get('kind') == 'CallExpr' and callee(x_) and callee(x_)[0] == 'fn' and callee(x_)[1].get('name') in ('getenv', 'secure_getenv')
-               for x_ in walk(ff_)):
+        if any(_env_read(G, wrappers, x_) == 'TZ' for x_ in walk(ff_) if _owner_fn(x_) is ff_):
             u, f = uu_, ff_          # the part of local_time_zone that consults the environment
             break
     F = ctx.facts(f)
@@ -354,10 +428,17 @@ def run(ctx):
             v_ = _env_read(G, wrappers, _strip_tmp(kids(x)[-1]))
             if v_:
                 envvars['%s#%s' % (x.get('name'), x['id'])] = v_
+    # an object that holds the value: its no-argument const accessor returning the stored pointer stands for the value
+    for x in walk(f):
+        if x.get('kind') == 'CXXMemberCallExpr' and callee(x) and callee(x)[2] is not None and not call_args(x):
+            ok_ = F.keys.key(callee(x)[2])
+            if ok_ in envvars and _holder_getter(G, wrappers, x):
+                envvars[F.keys.key(x)] = envvars[ok_]
     n_ov = 0
     for x in walk(f):
-        if x.get('kind') == 'BinaryOperator' and x.get('opcode') == '=' and F.keys.key(kids(x)[1]) in envvars:
-            vk = F.keys.key(kids(x)[1])
+        is_ret = x.get('kind') == 'ReturnStmt' and f is not f_local and kids(x) and F.keys.key(_strip_ctor(kids(x)[0])) in envvars
+        if is_ret or (x.get('kind') == 'BinaryOperator' and x.get('opcode') == '=' and F.keys.key(kids(x)[1]) in envvars):
+            vk = F.keys.key(_strip_ctor(kids(x)[0])) if is_ret else F.keys.key(kids(x)[1])
             n_ov += 1
             fs = F.facts_at_ast(x) or frozenset()
             about = [ft for ft in fs if vk in ft[1] or vk in ft[2]]
@@ -395,6 +476,9 @@ def run(ctx):
             if y.get('kind') in ('CallExpr',) and callee(y) and callee(y)[0] == 'fn' and callee(y)[1].get('name') == 'load_time_zone' and \
                     any(z.get('kind') == 'DeclRefExpr' and (z.get('referencedDecl') or {}).get('id') == zid for a_ in call_args(y) for z in walk(a_)):
                 uses.append(y)
+            if y.get('kind') == 'ReturnStmt' and f is not f_local and kids(y) and \
+                    any(z.get('kind') == 'DeclRefExpr' and (z.get('referencedDecl') or {}).get('id') == zid for z in walk(kids(y)[0])):
+                uses.append(y)          # (a helper that hands the name back)
         starts = g.nodes_for(x)
         targets = set(n_.id for y in uses for n_ in g.nodes_for(y))
         if not uses or not starts or not targets:
